@@ -633,6 +633,8 @@ fn run_impl(scratch: &mut Scratch, sc: &Scenario) -> Result<Vec<OpOut>, String> 
     .with_stderr(Capture { buf: Rc::new(RefCell::new(String::new())) })
     .with_module_imported_callback(move |p: &Path| {
         let rel = p.strip_prefix(&cb_root).map(|r| r.to_string_lossy().to_string()).unwrap_or_else(|_| format!("ABS{}", p.display()));
+        // `.` components are kept by PathBuf's display but ignored by its equality (the cache key)
+        let rel = rel.split('/').filter(|c| *c != ".").collect::<Vec<_>>().join("/");
         let mut b = cb_buf.borrow_mut();
         b.push_str("D:");
         b.push_str(&rel);
@@ -1176,6 +1178,10 @@ impl<'a> Gen<'a> {
         match self.rng.weighted(&[5, 4, 3, if string_ok { 3 } else { 0 }]) {
             0 => {
                 let mut items = vec![Item { name: m, as_: if self.rng.chance(1, 3) { Some(*self.rng.pick(&[64, 65, 60])) } else { None }, ..Default::default() }];
+                if self.rng.chance(1, 6) {
+                    // string form: binds only through `as`
+                    items[0].str_ = true;
+                }
                 if self.rng.chance(1, 5) && !targets.is_empty() {
                     items.push(self.item(targets, true));
                 }
@@ -1183,7 +1189,10 @@ impl<'a> Gen<'a> {
             }
             1 => {
                 let n = 1 + self.rng.below(2);
-                let items = (0..n).map(|_| self.item(&[60, 61, 62, 63, 60, 61], true)).collect();
+                let mut items: Vec<Item> = (0..n).map(|_| self.item(&[60, 61, 62, 63, 60, 61], true)).collect();
+                if self.rng.chance(1, 6) {
+                    items[0].str_ = true;
+                }
                 Act::From(m.into(), items)
             }
             2 => Act::FromAll(m.into()),
@@ -1647,6 +1656,136 @@ fn wild_family(rng: &mut Rng) -> Scenario {
     Scenario { run_import_tests: rng.chance(2, 3), host_tests: false, prelude: vec![], files, ops, family: "wildcards".into(), flags: Flags::default() }
 }
 
+/// a spelling of the module `name` in folder `to` as seen from folder `from`: `..` up to the common
+/// ancestor, then down; optionally with a leading `./`, or with a detour `d/..` through an existing
+/// directory `d` (path components must exist on disk for the OS to resolve them)
+fn spelling(rng: &mut Rng, from: &[Name], to: &[Name], name: Name, dirs: &[Vec<Name>]) -> Ref {
+    let common = from.iter().zip(to.iter()).take_while(|(a, b)| a == b).count();
+    let mut segs: Vec<Option<Name>> = vec![];
+    for _ in common..from.len() {
+        segs.push(None);
+    }
+    // detour at the common ancestor
+    if rng.chance(1, 4) {
+        let anc = &from[..common];
+        let kids: Vec<Name> = dirs.iter().filter(|d| d.len() == anc.len() + 1 && d[..anc.len()] == *anc).map(|d| d[anc.len()]).collect();
+        if !kids.is_empty() {
+            segs.push(Some(*rng.pick(&kids)));
+            segs.push(None);
+        }
+    }
+    for d in &to[common..] {
+        segs.push(Some(*d));
+    }
+    Ref { name, str_: true, segs, dot: rng.chance(1, 6) }
+}
+
+/// path-spelling family: one shared module reached from several folders under different spellings
+/// (`'../m1'`, `'m5/../m1'`, `'./m1'`, `m1`), a shadowing module of the same name in a sub-folder,
+/// nested directory modules, dotted module names next to their stems, string import items with and
+/// without `as` under export_top_level_ids
+fn spellings_family(rng: &mut Rng) -> Scenario {
+    let mut mk = 0u32;
+    let mut next = || {
+        mk += 1;
+        mk
+    };
+    let dirs: Vec<Vec<Name>> = vec![vec![5], vec![6], vec![5, 4]];
+    let mut files: Vec<FileDef> = vec![];
+    let imp = |r: Ref, as_: Option<Name>| -> Act { Act::Import(vec![Item { name: r.name, as_, str_: r.str_, segs: r.segs.clone() }]) };
+    // the shared module, optionally with dotted siblings
+    let mut b = vec![TAct::A(Act::Print(next())), TAct::A(Act::Export(60, 1))];
+    if rng.chance(1, 3) {
+        b.push(TAct::Main(next(), vec![]));
+    }
+    if rng.chance(1, 4) {
+        // imports itself under another spelling (guarded)
+        let r = Ref { name: 1, str_: true, segs: vec![Some(5), None], dot: false };
+        b.push(TAct::A(Act::Try(r, next())));
+    }
+    files.push(FileDef { path: MPath { dir: vec![], name: 1, is_dir: false }, body: Some(b) });
+    let dotted_file = rng.chance(1, 2);
+    if dotted_file {
+        files.push(FileDef { path: MPath { dir: vec![], name: 212, is_dir: false }, body: Some(vec![TAct::A(Act::Print(next())), TAct::A(Act::Export(60, 2))]) });
+    }
+    let dotted_dir = rng.chance(1, 3);
+    if dotted_dir {
+        files.push(FileDef { path: MPath { dir: vec![], name: 213, is_dir: true }, body: Some(vec![TAct::A(Act::Print(next())), TAct::A(Act::Export(60, 3))]) });
+    }
+    let dotted_only = rng.chance(1, 3);
+    if dotted_only {
+        // m2.v1.koto without m2.koto at the root
+        files.push(FileDef { path: MPath { dir: vec![], name: 221, is_dir: false }, body: Some(vec![TAct::A(Act::Print(next())), TAct::A(Act::Export(60, 4))]) });
+    }
+    if rng.chance(1, 3) {
+        // a module of the same name in m5/ shadows the root one for `import m1` from m5/
+        files.push(FileDef { path: MPath { dir: vec![5], name: 1, is_dir: false }, body: Some(vec![TAct::A(Act::Print(next())), TAct::A(Act::Export(60, 50))]) });
+    }
+    // importers in sub-folders
+    for (dir, name, is_dir) in [(vec![5], 2u32, false), (vec![6], 3, false), (vec![5], 4, true)] {
+        let folder = { let mut d = dir.clone(); if is_dir { d.push(name); } d };
+        let mut b = vec![TAct::A(Act::Print(next()))];
+        let r = spelling(rng, &folder, &[], 1, &dirs);
+        if rng.chance(1, 4) {
+            b.push(TAct::A(Act::From(r, vec![Item { name: 60, as_: Some(61), ..Default::default() }])));
+        } else {
+            b.push(TAct::A(imp(r, Some(61))));
+        }
+        b.push(TAct::A(Act::ExportId(62, 61)));
+        if name == 3 && rng.chance(1, 2) {
+            let r = spelling(rng, &folder, &[5], 2, &dirs);
+            b.push(TAct::A(imp(r, Some(63))));
+        }
+        files.push(FileDef { path: MPath { dir, name, is_dir }, body: Some(b) });
+    }
+    // host scripts from several folders
+    let host_dirs: Vec<Vec<Name>> = vec![vec![], vec![], vec![5], vec![6], vec![5, 4]];
+    let targets: Vec<(Vec<Name>, Name)> = vec![(vec![], 1), (vec![], 1), (vec![5], 2), (vec![6], 3), (vec![5], 4)];
+    let mut ops = vec![];
+    for _ in 0..(2 + rng.below(4)) {
+        let dir = rng.pick(&host_dirs).clone();
+        let et = rng.chance(1, 3);
+        let mut body = vec![];
+        for _ in 0..(1 + rng.below(3)) {
+            let alias = *rng.pick(&[64, 65, 66]);
+            match rng.below(7) {
+                0 if dir.is_empty() => body.push(TAct::A(Act::Import(vec![Item { name: 1, as_: None, ..Default::default() }]))),
+                1 => {
+                    // dotted names, from the root folder
+                    let name = *rng.pick(&[212, 213, 221, 234]);
+                    let r = spelling(rng, &dir, &[], name, &dirs);
+                    if rng.chance(1, 3) { body.push(TAct::A(Act::Try(r, next()))); } else { body.push(TAct::A(imp(r, Some(alias)))); }
+                }
+                2 => {
+                    let (td, tn) = rng.pick(&targets).clone();
+                    body.push(TAct::A(Act::FromAll(spelling(rng, &dir, &td, tn, &dirs))));
+                }
+                3 => {
+                    // string items of a from-import, with and without `as`
+                    let (td, tn) = (vec![], 1);
+                    let r = if rng.chance(1, 2) { spelling(rng, &dir, &td, tn, &dirs) } else { Ref { name: 1, ..Default::default() } };
+                    let it = Item { name: 60, as_: if rng.chance(2, 3) { Some(alias) } else { None }, str_: true, segs: vec![] };
+                    body.push(TAct::A(Act::From(r, vec![it, Item { name: 60, as_: Some(67), ..Default::default() }])));
+                }
+                4 => {
+                    let (td, tn) = rng.pick(&targets).clone();
+                    body.push(TAct::A(Act::Try(spelling(rng, &dir, &td, tn, &dirs), next())));
+                }
+                _ => {
+                    let (td, tn) = rng.pick(&targets).clone();
+                    let as_ = if rng.chance(4, 5) { Some(alias) } else { None };
+                    body.push(TAct::A(imp(spelling(rng, &dir, &td, tn, &dirs), as_)));
+                }
+            }
+            if rng.chance(1, 2) {
+                body.push(TAct::A(Act::Show(next(), *rng.pick(&[64, 65, 66, 67, 60]))));
+            }
+        }
+        ops.push(Op { dir, export_top: et, body });
+    }
+    Scenario { run_import_tests: rng.chance(1, 2), host_tests: false, prelude: vec![], files, ops, family: "spellings".into(), flags: Flags::default() }
+}
+
 /// exported-assignment family: a module re-exports parts of another module through every target shape
 /// the grammar allows under `export` (id, `_`, map pattern with plain / `as` / string-key / ignored
 /// entries; single and multi-target; export keyword or export_top_level_ids), and the bound ids are
@@ -1986,7 +2125,7 @@ fn main() {
     kvh::quiet_panics();
     let args = Args::parse();
     let mut rep = Report::new("C18", &args);
-    rep.rule = "case = scenario (settings + module files + history of host scripts run by one runtime); generated by seeded graph families (chain, diamond, cycles 1-3, failing top level/@test/@main, file and directory modules), a wildcard-import family (overlapping export keys, import orders with repeats, closures created at different points), an exported-assignment family (every assignment-target shape allowed under export: ids, `_`, map patterns with plain/`as`/string-key/ignored entries, single and multi-target, export keyword and export_top_level_ids; observed via importer, wildcard import, host exports() and non-local reads in functions), a random file-system/history generator, a bounded-exhaustive sweep over all 3-module import graphs x failure placements, and the corpus; distinct = distinct request lines; non-trivial = at least one module file, one operation and two module statements".into();
+    rep.rule = "case = scenario (settings + module files + history of host scripts run by one runtime); generated by seeded graph families (chain, diamond, cycles 1-3, failing top level/@test/@main, file and directory modules), a path-spelling family (one module reached from several folders as '../m', 'd/../m', './m', m; shadowing modules; dotted module names; string import items with/without `as`), a wildcard-import family (overlapping export keys, import orders with repeats, closures created at different points), an exported-assignment family (every assignment-target shape allowed under export: ids, `_`, map patterns with plain/`as`/string-key/ignored entries, single and multi-target, export keyword and export_top_level_ids; observed via importer, wildcard import, host exports() and non-local reads in functions), a random file-system/history generator, a bounded-exhaustive sweep over all 3-module import graphs x failure placements, and the corpus; distinct = distinct request lines; non-trivial = at least one module file, one operation and two module statements".into();
     rep.max_samples = 6;
     let open: Vec<String> = rep.known_open().iter().filter_map(|e| e.get("id").and_then(|x| x.as_str()).map(|s| s.to_string())).collect();
     let drv = if args.driver.is_empty() { None } else { Some(Driver::spawn(&args.driver)) };
@@ -2108,6 +2247,11 @@ fn main() {
 
     // 3. graph families and random scenarios
     let (n_graph, n_random) = if thorough { (12000, 40000) } else { (1200, 3000) };
+    let n_spell = if thorough { 8000 } else { 800 };
+    for _ in 0..n_spell {
+        let sc = spellings_family(&mut rng);
+        cx.one(&sc);
+    }
     let n_pat = if thorough { 8000 } else { 800 };
     for _ in 0..n_pat {
         let sc = patterns_family(&mut rng);
